@@ -456,7 +456,7 @@ func runC10(w *World, c *Check) {
 	keyCall := `client\.\(\*Client\)\.Key\(cl, .*\)`
 	sfa, _ := checkCalls(w, c, "C10.preauth", "client.setPAData", []CallSpec{
 		{Name: "timestamp-usage-1", Desc: "the PA-ENC-TS-ENC is encrypted with the client key, key usage 1 and that key's kvno", Callee: `crypto\.GetEncryptedData`,
-			Want: `crypto\.GetEncryptedData\(types\.GetPAEncTSEncAsnMarshalled\(\)#0, φ\(` + keyCall + `#0\|` + keyCall + `#0\), 1, φ\(` + keyCall + `#1\|` + keyCall + `#1\)\)`},
+			Want: `crypto\.GetEncryptedData\(types\.GetPAEncTSEncAsnMarshalled\(\)#0, (φ\(` + keyCall + `#0\|` + keyCall + `#0\)|` + keyCall + `#0), 1, (φ\(` + keyCall + `#1\|` + keyCall + `#1\)|` + keyCall + `#1)\)`},
 		{Name: "key-for-negotiated-etype", Desc: "after a KDC error the key is derived for the etype the KDC's hints select, with those hints", Callee: `client\.\(\*Client\)\.Key`,
 			Want: `client\.\(\*Client\)\.Key\(cl, client\.preAuthEType\(krberr\)#0, 0, krberr\)`},
 		{Name: "key-for-remembered-etype", Desc: "without a KDC error the key is for the remembered or configured etype", Callee: `client\.\(\*Client\)\.Key`,
